@@ -307,6 +307,25 @@ fn conn(x: &X) -> X {
             _ => return X::bad(),
         }
     }
+    // a harness failure (loopback I/O error or timeout) is not a verdict: run the scenario again on a fresh host
+    let mut cors = Some(cors);
+    for attempt in 0..3 {
+        let c = match cors.take() {
+            Some(c) => c,
+            None => match build_rules(&cfg[2]) {
+                Some(Ok(c)) => c,
+                _ => return X::bad(),
+            },
+        };
+        let (out, failed) = run_once(base, with_cors, cache, c, &handlers, &ops);
+        if !failed || attempt == 2 {
+            return X::L(vec![X::N(0), X::L(out)]);
+        }
+    }
+    X::bad()
+}
+
+fn run_once(base: u128, with_cors: bool, cache: bool, cors: Cors, handlers: &[(String, u128)], ops: &[Op]) -> (Vec<X>, bool) {
     let log: Arc<Mutex<Vec<Vec<u8>>>> = Arc::new(Mutex::new(Vec::new()));
     let mut ext = if base == 0 { Extensions::new() } else { Extensions::empty() };
     if with_cors {
@@ -340,10 +359,12 @@ fn conn(x: &X) -> X {
     }
     let coll = HostCollection::builder().default(host).build();
     let desc = Arc::new(PortDescriptor::unsecure(8080, Arc::clone(&coll)));
+    let failed = Arc::new(std::sync::atomic::AtomicBool::new(false));
+    let failed2 = Arc::clone(&failed);
     let out = rt().block_on(async move {
         let mut client = Client { stream: None, desc };
         let mut out = Vec::new();
-        for op in &ops {
+        for op in ops {
             match op {
                 Op::Clear => {
                     coll.clear_response_caches(None).await;
@@ -355,6 +376,7 @@ fn conn(x: &X) -> X {
                     let lg: Vec<X> = log.lock().unwrap().iter().map(X::b).collect();
                     out.push(match r {
                         Err(e) => {
+                            failed2.store(true, std::sync::atomic::Ordering::SeqCst);
                             client.stream = None;
                             X::L(vec![X::N(93), X::b(format!("{:?}", e.kind()))])
                         }
@@ -376,11 +398,36 @@ fn conn(x: &X) -> X {
         }
         out
     });
-    X::L(vec![X::N(0), X::L(out)])
+    (out, failed.load(std::sync::atomic::Ordering::SeqCst))
+}
+
+/// input: (L (B bytes)...); output: (L res...), res = (L) parse error | (L (L scheme?) (L host?) (L port?))
+fn parse_uris(x: &X) -> X {
+    let l = match x.as_l() {
+        Some(l) => l,
+        None => return X::bad(),
+    };
+    let mut out = Vec::new();
+    for b in l {
+        let b = match b.as_b() {
+            Some(b) => b,
+            None => return X::bad(),
+        };
+        out.push(crate::guarded(|| match Uri::try_from(b) {
+            Err(_) => X::L(vec![]),
+            Ok(u) => X::L(vec![
+                X::opt(u.scheme_str().map(X::b)),
+                X::opt(u.host().map(X::b)),
+                X::opt(u.port_u16().map(X::n)),
+            ]),
+        }));
+    }
+    X::L(out)
 }
 
 pub fn dispatch(comp: &str, x: &X) -> Option<X> {
     Some(match comp {
+        "cors.parse" => parse_uris(x),
         "cors.check" => check(x),
         "cors.conn" | "cors.conn_nocache" => conn(x),
         _ => return None,
